@@ -24,11 +24,22 @@ Proof.
   intros t Ht. rewrite forallb_forall in H2. apply Nat.ltb_lt. apply H2. exact Ht.
 Qed.
 
-Example ex_setups_ok : forall l sc n, l_setup (spec_of ex_w l) = Some sc -> script_at sc n = HOk.
+(* a second world in which layer 4's setUp raises: its test is never started, every other test still is *)
+Definition ex_w2 : rworld :=
+  {| lw := ex_lw;
+     lsp := [sp None None; sp (Some [HOk]) (Some [HOk]); sp (Some [HOk]) (Some [HNotImpl]); sp None (Some [HOk]); sp (Some [HRaise]) (Some [HRaise])];
+     tests := tests ex_w |}.
+Example ex_good : forall l, l < 4 -> good ex_w2 l.
 Proof.
-  intros l sc n. do 5 (destruct l as [|l]; [simpl; intros E; try discriminate; injection E as <-; destruct n as [|[|n]]; reflexivity|]).
-  unfold spec_of. simpl. destruct l; discriminate.
+  assert (Hb : forall l x, tb (lw ex_w2) l x -> x < l) by (intros l x H; eapply tb_lt; [|exact H]; apply wf_world_wf; reflexivity).
+  intros l Hl x sc n Hx E.
+  assert (Hx4 : x < 4) by (destruct Hx as [->|Hx]; [exact Hl | apply Hb in Hx; lia]).
+  do 4 (destruct x as [|x]; [simpl in E; try discriminate; injection E as <-; destruct n as [|[|n]]; reflexivity|]). lia.
 Qed.
+Example ex_contained :
+  map (fun t => starts_of t (run ex_w2 (ex_o false 1))) [0; 1; 2; 3; 4; 5; 6] = [2; 2; 2; 0; 2; 2; 0] /\
+  r_failed (run ex_w2 (ex_o false 1)) = true.
+Proof. vm_compute. auto. Qed.
 
 (* the run resumes layers in subprocesses, records failures, and starts every test twice (--repeat 2) *)
 Example ex_run_shape :
